@@ -305,7 +305,9 @@ EXTRA = ['C', 'CC', 'C=C', 'C#N', 'c1ccccc1', 'C1CC1', 'C%10CC%10', 'C12CC1C2', 
          '[CH3:1][CH2:1][OH:1]>>[CH3:1][CH:1]=[O:1]', '[CH3:999]C', '[CH3:0]C', '[CH3:2][CH3:1]', 'C[CH2:5]O>>C[CH:5]=O', '[CH3:1]C>>', '>>[CH3:1]C', '>[CH3:1][CH3:1]>',
          # stereo marks on mapped atoms: the map numbers run against the writing order
          '[CH3:9][C@H:1](F)Cl', '[C@H:9]([F:1])(Cl)Br', '[C@@H:2]([CH3:1])(F)Cl', 'F[C@H:1]([CH3:5])Cl', '[CH3:3][C@:2]([F:1])(Cl)Br', '[F:4][C@:1]([Cl:3])([Br:2])I', '[CH3:9][C@H:1](F)Cl>>[CH3:9][C@@H:1](F)Cl',
-         '[CH3:5]/[CH:4]=[CH:3]/[CH3:1]', '[CH3:1][CH:2]=[C@:9]=[CH:3][CH3:4]', '[C@H:9]1([CH3:1])[CH2:8][CH2:2][O:3]1']
+         '[CH3:5]/[CH:4]=[CH:3]/[CH3:1]', '[CH3:1][CH:2]=[C@:9]=[CH:3][CH3:4]', '[C@H:9]1([CH3:1])[CH2:8][CH2:2][O:3]1',
+         # direction mark on the opening digit only, on the closing digit only, on both; the closing atom is the double-bond atom
+         'C/1CCCCC/C=C1', 'C/1C(C)CCCC1=C/F', 'N/%12CCCCCC/C=C%12', 'C1CCCCC/C=C/1', 'C/1CCCCC/C=C/1', 'C\\1CCCCC/C=C1', 'F/C=C1/CCCC(C)C/1', 'F/C=C/1CCCC(C)C1', 'C/1(=C/F)CCCC(C)C1']
 
 
 def run_extra(shard):
@@ -314,7 +316,7 @@ def run_extra(shard):
     acc = Acc()
     from ..scope import inputs
     from .c12 import CENTRES, ALKENES, ALLENES
-    for s in EXTRA + inputs.ring_stereo_family() + [c[0] for c in CENTRES] + ALKENES + ALLENES:
+    for s in EXTRA + inputs.ring_stereo_family() + inputs.interdependent_family() + inputs.isoh_family() + [c[0] for c in CENTRES] + ALKENES + ALLENES:
         judge(acc, s, rdkit=True, source='curated')
     acc.sample({'curated strings': EXTRA[:10]})
     return acc
